@@ -1,4 +1,6 @@
 //! One module per claimed property: generate / execute / shrink.
+pub mod c08;
+pub mod c09;
 pub mod c10;
 pub mod c11;
 pub mod c12;
@@ -7,6 +9,7 @@ pub mod c14;
 pub mod c15;
 pub mod c19;
 pub mod common;
+pub mod world;
 
 use crate::PropDef;
 
@@ -18,6 +21,8 @@ macro_rules! def {
 
 pub fn all() -> Vec<PropDef> {
     vec![
+        def!(c08),
+        def!(c09),
         def!(c10),
         def!(c11),
         def!(c12),
